@@ -428,6 +428,8 @@ def concurrent_runs(seeds):
         bad.append(('a concurrently executing test saw the other test\'s diagnoses', dict(seed=sd)))
       if any(('phase-log-from-%s' % other) in r.message for r in rec.log_records):
         bad.append(('a concurrently executing test captured the other test\'s phase log', dict(seed=sd)))
+      if sum(1 for r in rec.log_records if ('phase-log-from-%s' % tag) in r.message) != 1:
+        bad.append(('the record of a concurrently executing test does not hold its own phase log exactly once', dict(seed=sd)))
   return len(seeds), bad[:6]
 
 
@@ -460,6 +462,18 @@ def main(chk):
       for sig, det in bad:
         chk.violation(sig, det)
     chk.log('%d concurrent double runs' % ns)
+    # "a record that depends only on that run": one run ends (its record handler is taken off the shared logger)
+    # while another run's log call is being dispatched - the run/end walk of the C19 check (Logs.tla / LogsWalk.tla),
+    # judged here on "the other run's record is unaffected"
+    from checks import c19
+    n, bad = pool.apply(c19.work_b, (3 if quick else 4,))
+    chk.traces += n
+    chk.nontrivial += n
+    chk.tlc_runs.append(dict(name='dfs one run ends while another logs', schedules=n))
+    for sig, det in bad:
+      if 'lost a framework log record' in sig:
+        chk.violation('the record of a running test depends on another test: a log line is missing from it because the '
+                      'other test ended at that moment', det)
   chk.cov['rule'] = ('all histories of <=4 (5) wrap / with_args / PhaseOptions / measures / diagnose / plug / sequence / group / '
                      'collection.with_args / execute operations over <=4 objects (TLC-enumerated); one Test executed three times; '
                      'two tests sharing a phase object executed concurrently under seeded random schedules')
